@@ -2,8 +2,9 @@ SPECIFICATION Spec
 CONSTANTS
   MaxSteps = 3
   MaxInj = 2
-  Classes <- AllClasses
+  Classes <- TwoClasses
   AutoChoices <- BothFlags
+  Layouts <- AllLayouts
   Bug = "none"
 VIEW NoHist
 INVARIANT TypeOK
@@ -15,4 +16,7 @@ INVARIANT Contained
 INVARIANT NothingLeft
 PROPERTY BadStateDetected
 PROPERTY BadVelDetected
+PROPERTY AwakeAccDetected
+PROPERTY SleeperAccDetected
+PROPERTY TouchWakes
 CHECK_DEADLOCK FALSE
